@@ -142,12 +142,16 @@ impl<'a> PrettyPrinter<'a> {
                     !matches!(child.kind(), SyntaxKind::LeftParen | SyntaxKind::Space)
                 })
                 .unwrap_or(0);
-            let j = children
+            let mut j = children
                 .iter()
                 .rposition(|child| {
                     !matches!(child.kind(), SyntaxKind::RightParen | SyntaxKind::Space)
                 })
                 .unwrap_or(children.len().saturating_sub(1));
+            // A trailing line comment must keep the line break that ends it.
+            if children[j].kind() == SyntaxKind::LineComment && j + 1 < children.len() {
+                j += 1;
+            }
             // Nothing but blanks between the parentheses: `i` then points behind `j`.
             let range = if i <= j { i..j + 1 } else { 0..0 };
             children[range].iter()
